@@ -28,7 +28,7 @@ import (
 
 func worldOf(kv map[string]string) *world {
 	w := &world{sh: parseShape(kv["sh"]), ids: map[*Conf]int{}, ff: parseSet(kv["ff"]), cf: parseSet(kv["cf"]), rf: parseSet(kv["rf"]),
-		plugT: ifaceT, bad: kv["bad"] == "1"}
+		plugT: ifaceT, bad: kv["bad"] == "1" || kv["bad"] == "2", badKey: kv["bad"] == "2"}
 	w.vmin, _ = strconv.Atoi(kv["vmin"])
 	for i, t := range strings.Split(kv["d"], "/") {
 		if i < 3 {
